@@ -421,6 +421,33 @@ CONDITIONS.append({"fn": "c15_caller_state", "quick": 40, "thorough": 120})
 
 
 
+# ---- a macro parameter the call leaves unbound is undefined inside the body whatever locals the caller has by that name ----
+T_UNBOUND = ENV.from_string(
+    "{% macro mm p, q, r: 'R' %}[{{ p }}|{{ q }}|{{ r }}]{% endmacro %}{% assign p = a %}{% capture q %}{{ b }}{% endcapture %}{% call mm %}"
+    "{% for q in (1..1) %}{% call mm q: 7 %}{% for p in (2..2) %}{% call mm %}{% endfor %}{% endfor %}"
+    "{% with p: b, q: a, r: a %}{% call mm %}{% endwith %}{% increment r %}{% call mm p: r %}")
+
+
+def c15_unbound_parameters(a: int, b: int, has_g: bool, g: int) -> bool:
+    """
+    pre: 0 <= a <= 9 and 0 <= b <= 9 and 10 <= g <= 19
+    post: _
+    """
+    # with has_g the names p and q also exist as render arguments: a macro body sees render arguments (documented), so an
+    # unbound parameter... is still undefined: the parameter shadows them with the undefined value
+    if excluded("c15_unbound_parameters", locals()):
+        return True
+    d = {"a": a, "b": b}
+    if has_g:
+        d["p"] = g
+        d["q"] = g
+    out = render(T_UNBOUND, d)
+    return finish(out == "[||R][|7|R][||R][||R]0[1||R]")
+
+
+CONDITIONS.append({"fn": "c15_unbound_parameters", "quick": 30, "thorough": 60})
+
+
 # ---- no global data at all: the bound variable / forloop must still reach the body ------------
 NG_FORMS = ("{% render 'p' with h %}", "{% render 'p' with h as q %}", "{% render 'p' for hs %}", "{% render 'p' for hs as q %}",
             "{% render 'p' for h %}", "{% render s with h as q %}", "{% render s for hs as q %}", "{% render 'p', a: h %}",
